@@ -965,6 +965,7 @@ func (env *SpecEnv) callPure(fn *ssa.Function, args []Val) Val {
 			c.declareFun(name, sorts, l.Sort)
 			v.L = append(v.L, c.app(l.Sort, name, ats...))
 		}
+		e.pureCallFacts(e.prog.contractOf(fn), fn, args, []Val{v}, env.cells)
 		return v
 	}
 	// a contract marked pure+trusted/with ensures could be used instead; default: inline
@@ -1216,6 +1217,18 @@ func (env *SpecEnv) applyOpaque(sf *SpecFunc, sub *SpecEnv) Val {
 		if v.Addr != nil {
 			env.fail("opaque spec %s: pointer argument %s (pass values)", sf.Name, p.Name)
 		}
+		if _, isPtr := v.Typ.Underlying().(*types.Pointer); isPtr && len(v.L) == 1 {
+			// a pointer argument stands for the object it points to: the application is keyed by the
+			// reference and by the current value of every field of that object
+			args = append(args, v.L[0])
+			sorts = append(sorts, v.L[0].Sort.String())
+			obj := e.c.load(env.cells, e.addrOfPtr(v))
+			for _, t := range obj.L {
+				args = append(args, t)
+				sorts = append(sorts, t.Sort.String())
+			}
+			continue
+		}
 		for _, t := range v.L {
 			args = append(args, t)
 			sorts = append(sorts, t.Sort.String())
@@ -1296,6 +1309,12 @@ func (env *SpecEnv) opaqueConst(sf *SpecFunc, sub *SpecEnv, name string, rt type
 		for _, p := range sf.Params {
 			v := sub.vars[p.Name]
 			n := len(v.L)
+			if pt, isPtr := v.Typ.Underlying().(*types.Pointer); isPtr && n == 1 {
+				// pointer parameter: keep the pointer itself (the fields are read from the state)
+				sub2.vars[p.Name] = v
+				k += 1 + len(leavesOf(pt.Elem()))
+				continue
+			}
 			nv := Val{Typ: v.Typ, L: args[k : k+n]}
 			k += n
 			sub2.vars[p.Name] = nv
